@@ -210,3 +210,13 @@ def run(ctx):
         if cn == "TaskExpression":
             ok = ok and t.get("self.call_hash") == "None"
         r3.check(ok, f"{m.rel}:{cn}.__setstate__:bookkeeping", f"{cn}.__setstate__ does not rebuild _upstreams from the restored args / clear call_hash / call super", m.rel, fn.lineno)
+
+    # ---- C18.4 option dicts shared between expressions are never rewritten in place -------------
+    # Task.__call__ hands the task's _task_options_override dict to every TaskExpression by reference and Task.options() copies it shallowly;
+    # update_context() builds the new override with merge_dicts([previous, ...]).  If merge_dicts wrote into its operands, a later derived task
+    # would change the options -- hence the hash -- of expressions that already exist (and whose hash may already be cached).
+    r4 = ctx.rule("C18.4", "merge_dicts (used to build call-time option overrides) does not write into its operands", floor=1)
+    from ..flow import merge_purity_obligations
+
+    for construct, ok, msg, rel_, line in merge_purity_obligations(repo):
+        r4.check(ok, construct, msg, rel_, line)
